@@ -134,6 +134,22 @@ theorem C28_rendering_is_pure (l : List Stmt) : emitAll l = String.join (l.map S
   | chain vs => exact C28_format_chain_spec vs
   | lit s => rfl
 
+/-- An int renders as its canonical decimal numeral: the sign first (only for negative numbers), then the
+    digits of the magnitude — decimal digits only, denoting exactly the magnitude, and as few of them as the
+    magnitude needs (`len ≤ k ↔ m < 10^k`, so 999999999999999 has 15 digits and 10^15 has 16: a leading `0`
+    is impossible, and so is a dropped digit). -/
+theorem C28_int_decimal (m : Nat) :
+    render (.int (Int.ofNat m)) = m.repr ∧
+    render (.int (Int.negSucc m)) = "-" ++ (m + 1).repr ∧
+    (∀ c ∈ m.repr.toList, c.isDigit = true) ∧
+    Nat.ofDigitChars 10 m.repr.toList 0 = m ∧
+    (∀ k, 0 < k → (m.repr.length ≤ k ↔ m < 10 ^ k)) := by
+  refine ⟨rfl, rfl, ?_, ?_, fun k hk => Nat.length_repr_le_iff hk⟩
+  · intro c hc
+    rw [Nat.toList_repr] at hc
+    exact Nat.isDigit_of_mem_toDigits (by decide) (by decide) hc
+  · rw [Nat.toList_repr]; exact Nat.ofDigitChars_ten_toDigits
+
 /-- values of other types (floats, user types and channels with their own `ToString`) are spliced into the
     built-in containers with exactly the text their own `str` yields -/
 theorem C28_foreign_leaf_spliced (t : String) :
